@@ -271,6 +271,27 @@ theorem checkpoint_monotone (sp : Spec) (f : Facts) (r : RunRes) (ms : List (Nat
     (rec : Rec) (pc : RPc) (h : resRes sp f r = .put ms rec pc) : r.rc.progress ≤ rec.progress :=
   resRes_put_progress h
 
+/-! ## utxo nursery: late registrations -/
+
+/-- `PreschoolToKinder` (with `lastGradHeight` = the chain tip, as `Start` and every new block set it)
+    always files the output under a class height that is still to come, so the incubator will visit
+    it: an output whose confirmation is replayed after downtime is never stranded below the tip. -/
+theorem nursery_class_in_future (sp : Spec) (s s' : Sys) (k : Nat)
+    (hp : s.nursery.any (fun p => p.1 == k && p.2 == .preschool) = true)
+    (h : nurseryStep sp s k = some s') :
+    ∃ cls, (k, NStage.kinder cls) ∈ s'.nursery ∧ s.facts.height < cls ∧
+      ¬ (k, NStage.preschool) ∈ s'.nursery := by
+  unfold nurseryStep at h
+  rw [if_pos hp] at h
+  split at h
+  · rename_i hc _
+    cases h
+    refine ⟨if hc + sp.csv ≤ s.facts.height then s.facts.height + 1 else hc + sp.csv, ?_, ?_, ?_⟩
+    · simp
+    · split <;> omega
+    · simp
+  · cases h
+
 /-! ## witnesses: where the full statements fail (all reproduced on the real code) -/
 
 /-- our own force close decided by the chain trigger: htlc 12 is inside the broadcast window at
